@@ -179,7 +179,7 @@ def run_case(case):
                     if k == "NP2.4-2013":
                         kind, extra = "NP2.4", {"imDatPrb_type": 2013}
                     np2 = kind.startswith("NP2")
-                    stream = "ap" if (np2 or rng.random() < 0.6) else "lf"
+                    stream = "ap" if rng.random() < (0.7 if np2 else 0.6) else "lf"      # NP2 LF-band files exist too (written by the shank converter)
                     n = int(rng.choice([384, 384, 383, 276, 301, 1, 32]))
                     if kind == "NPultra":
                         n = min(n, 384)
